@@ -77,6 +77,8 @@ Ltac sy_incl :=
   intros x Hx; cbn [vars flat_map app] in Hx |- *;
   repeat rewrite in_app_iff in *; cbn [In] in *; tauto.
 
+Ltac sy_split4 := split; [|split; [|split]].
+
 (** ** The unary nodes *)
 
 Lemma SY_neg rho a : wfR (Neg a) -> InDomain rho (Neg a) -> unary_spec rho (Neg a) a.
@@ -168,26 +170,38 @@ Proof.
       * field. split; assumption.
 Qed.
 
+Lemma SY_suf_exp a b m :
+  suf (Exp a b) m =
+  if Reqb b 1 then Const 0
+  else if Reqb b (exp 1) then Mul [Exp a b; m]
+  else Mul [Log (Const b) (exp 1); Exp a b; m].
+Proof. reflexivity. Qed.
+
+Lemma SY_suf_log a b m :
+  suf (Log a b) m =
+  if Reqb b (exp 1) then Divide m a else Divide m (Mul [Log (Const b) (exp 1); a]).
+Proof. reflexivity. Qed.
+
 Lemma SY_exp rho a b : wfR (Exp a b) -> InDomain rho (Exp a b) -> unary_spec rho (Exp a b) a.
 Proof.
   cbn [wf InDomain]; intros [Hb Hwf] Hdom. repeat split; try assumption.
   change (Rltb 0 b = true) in Hb. pose proof Hb as Hb'. apply Rltb_true in Hb'.
-  cbn [synth_unary_formula]. change (neqb RInst) with Reqb.
-  change (n1 RInst) with 1. change (n_e RInst) with (exp 1). change (n0 RInst) with 0.
-  destruct (Reqb b 1) eqn:E1; [apply Reqb_true in E1 | apply Reqb_false in E1].
+  destruct (Reqb b 1) eqn:E1b; pose proof E1b as E1;
+    [apply Reqb_true in E1 | apply Reqb_false in E1].
   - exists 0. split.
-    + intros m Hm Hdm. cbn [wf InDomain denote vars].
+    + intros m Hm Hdm. rewrite SY_suf_exp, E1b. cbn [wf InDomain denote vars].
       repeat split; try assumption; [sy_incl | ring].
     + intros v da Ha. eapply tp_ext_value; [apply tp_exp; [exact Hb' | exact Ha] | ].
       subst b. rewrite ln_1. ring.
-  - destruct (Reqb b (exp 1)) eqn:E2; [apply Reqb_true in E2 | apply Reqb_false in E2].
+  - destruct (Reqb b (exp 1)) eqn:E2b; pose proof E2b as E2;
+      [apply Reqb_true in E2 | apply Reqb_false in E2].
     + exists (Rpower b (denote rho a)). split.
-      * intros m Hm Hdm. cbn [wf InDomain denote fold_right].
+      * intros m Hm Hdm. rewrite SY_suf_exp, E1b, E2b. cbn [wf InDomain denote fold_right].
         repeat split; try assumption; [sy_incl | ring].
       * intros v da Ha. eapply tp_ext_value; [apply tp_exp; [exact Hb' | exact Ha] | ].
         rewrite E2, SY_ln_e. ring.
     + exists (ln b * Rpower b (denote rho a)). split.
-      * intros m Hm Hdm. cbn [wf InDomain denote fold_right].
+      * intros m Hm Hdm. rewrite SY_suf_exp, E1b, E2b. cbn [wf InDomain denote fold_right].
         repeat split; try assumption;
           [apply SY_wf_e_lt | apply SY_wf_e_neq | sy_incl | ].
         rewrite SY_ln_e. field.
@@ -202,16 +216,15 @@ Proof.
   change (Reqb b 1 = false) in Hb1. pose proof Hb1 as Hb1'. apply Reqb_false in Hb1'.
   pose proof (ln_neq_0 b Hb' Hb1') as Hln.
   assert (Hva : denote rho a <> 0) by lra.
-  cbn [synth_unary_formula]. change (neqb RInst) with Reqb.
-  change (n_e RInst) with (exp 1).
-  destruct (Reqb b (exp 1)) eqn:E2; [apply Reqb_true in E2 | apply Reqb_false in E2].
+  destruct (Reqb b (exp 1)) eqn:E2b; pose proof E2b as E2;
+    [apply Reqb_true in E2 | apply Reqb_false in E2].
   - exists (/ denote rho a). split.
-    + intros m Hm Hdm. cbn [wf InDomain denote fold_right].
-      repeat split; try assumption; [sy_incl | field; exact Hva].
+    + intros m Hm Hdm. rewrite SY_suf_log, E2b. cbn [wf InDomain denote fold_right].
+      repeat split; try assumption; try sy_incl; try (field; exact Hva).
     + intros v da Ha. eapply tp_ext_value; [apply tp_log; [exact Hb' | exact Hb1' | exact Hpos | exact Ha] | ].
       rewrite E2, SY_ln_e. field. exact Hva.
   - exists (/ (ln b * denote rho a)). split.
-    + intros m Hm Hdm. cbn [wf InDomain denote fold_right].
+    + intros m Hm Hdm. rewrite SY_suf_log, E2b. cbn [wf InDomain denote fold_right].
       rewrite SY_ln_e.
       repeat split; try assumption;
         [apply SY_wf_e_lt | apply SY_wf_e_neq | sy_incl | | field; split; assumption ].
@@ -219,4 +232,272 @@ Proof.
       apply Rmult_integral_contrapositive_currified; assumption.
     + intros v da Ha. eapply tp_ext_value; [apply tp_log; [exact Hb' | exact Hb1' | exact Hpos | exact Ha] | ].
       field. split; assumption.
+Qed.
+
+(** ** The binary nodes with two local formulas *)
+
+Lemma SY_divide rho a b : wfR (Divide a b) -> InDomain rho (Divide a b) ->
+  binary_spec rho (Divide a b) a b (synth_divide_left a b) (synth_divide_right a b).
+Proof.
+  cbn [wf InDomain]; intros [Hwa Hwb] (Hda & Hdb & H0). repeat split; try assumption.
+  exists (/ denote rho b), (- (denote rho a / denote rho b ^ 2)). split; [|split].
+  - intros m Hm Hdm. unfold synth_divide_left. cbn [wf InDomain denote vars].
+    repeat split; try assumption; try sy_incl.
+  - intros m Hm Hdm. unfold synth_divide_right. cbn [wf InDomain denote fold_right].
+    change (Pos.to_nat 2) with 2%nat.
+    repeat split; try assumption; try sy_incl; try (apply pow_nonzero; exact H0).
+    ring.
+  - intros v da db Ha Hb. eapply tp_ext_value; [apply tp_divide; [exact Ha | exact Hb | exact H0] | ].
+    unfold Rdiv. ring.
+Qed.
+
+Lemma SY_power rho a b : wfR (Power a b) -> InDomain rho (Power a b) ->
+  binary_spec rho (Power a b) a b (synth_power_left RInst a b) (synth_power_right RInst a b).
+Proof.
+  cbn [wf InDomain]; intros [Hwa Hwb] (Hda & Hdb & H0). repeat split; try assumption.
+  exists (denote rho b * Rpower (denote rho a) (denote rho b - 1)),
+         (ln (denote rho a) * Rpower (denote rho a) (denote rho b)). split; [|split].
+  - intros m Hm Hdm. unfold synth_power_left. cbn [wf InDomain denote fold_right].
+    change (n1 RInst) with 1.
+    repeat split; try assumption; try sy_incl.
+    ring.
+  - intros m Hm Hdm. unfold synth_power_right. cbn [wf InDomain denote fold_right].
+    change (n_e RInst) with (exp 1). change (n0 RInst) with 0. change (n1 RInst) with 1.
+    change (nltb RInst) with Rltb. change (neqb RInst) with Reqb.
+    rewrite SY_ln_e.
+    repeat split; try assumption; try sy_incl; try apply SY_wf_e_lt; try apply SY_wf_e_neq.
+    field.
+  - intros v da db Ha Hb. eapply tp_ext_value; [apply tp_power; [exact H0 | exact Ha | exact Hb] | ].
+    ring.
+Qed.
+
+(** ** List helpers *)
+
+Lemma SY_fold_and {A} (P : A -> Prop) (l : list A) :
+  fold_right (fun x acc => P x /\ acc) True l <-> Forall P l.
+Proof.
+  induction l as [|a l IH]; cbn [fold_right].
+  - split; intros; [constructor | exact I].
+  - rewrite IH. split; [intros [Ha Hl]; constructor; assumption | intro H; inversion H; auto].
+Qed.
+
+Lemma SY_wf_Add l : wfR (Add l) <-> Forall wfR l.
+Proof. exact (SY_fold_and wfR l). Qed.
+Lemma SY_wf_Mul l : wfR (Mul l) <-> Forall wfR l.
+Proof. exact (SY_fold_and wfR l). Qed.
+Lemma SY_dom_Add rho l : InDomain rho (Add l) <-> Forall (InDomain rho) l.
+Proof. exact (SY_fold_and (InDomain rho) l). Qed.
+Lemma SY_dom_Mul rho l : InDomain rho (Mul l) <-> Forall (InDomain rho) l.
+Proof. exact (SY_fold_and (InDomain rho) l). Qed.
+
+Lemma SY_incl_flat_map (l : list (expr R)) (V : list name) :
+  incl (flat_map vars l) V <-> Forall (fun x => incl (vars x) V) l.
+Proof.
+  induction l as [|a l IH]; cbn [flat_map].
+  - split; intros; [constructor | intros x []].
+  - split.
+    + intro H. constructor.
+      * intros x Hx. apply H, in_or_app. left; exact Hx.
+      * apply IH. intros x Hx. apply H, in_or_app. right; exact Hx.
+    + intro H. inversion H as [|? ? Ha Hl]; subst. apply incl_app; [exact Ha | apply IH; exact Hl].
+Qed.
+
+Lemma SY_Forall_mp3 {A} (P Q S : A -> Prop) (l : list A) :
+  Forall (fun x => P x -> Q x -> S x) l -> Forall P l -> Forall Q l -> Forall S l.
+Proof.
+  induction 1 as [|a l Ha Hl IH]; intros HP HQ; constructor;
+    inversion HP; inversion HQ; subst; auto.
+Qed.
+
+Lemma SY_Forall_remove_nth {A} (P : A -> Prop) (l : list A) (i : nat) :
+  Forall P l -> Forall P (remove_nth i l).
+Proof.
+  intro H. revert i. induction H as [|a l Ha Hl IH]; intro i.
+  - destruct i; constructor.
+  - destruct i as [|j]; cbn [remove_nth]; [exact Hl | constructor; [exact Ha | apply IH]].
+Qed.
+
+Lemma SY_map_remove_nth {A B} (f : A -> B) (l : list A) (i : nat) :
+  map f (remove_nth i l) = remove_nth i (map f l).
+Proof.
+  revert i. induction l as [|a l IH]; intro i; [destruct i; reflexivity|].
+  destruct i as [|j]; cbn [remove_nth map]; [reflexivity | rewrite IH; reflexivity].
+Qed.
+
+(** ** Forward route *)
+
+Definition fwd_ok (rho : env) (v : name) (e : expr R) : Prop :=
+  wfR (sfwd v e) /\ incl (vars (sfwd v e)) (vars e) /\ InDomain rho (sfwd v e) /\
+  true_partial rho e v (denote rho (sfwd v e)).
+
+Lemma SY_fwd_unary rho v e a :
+  unary_spec rho e a -> sfwd v e = suf e (sfwd v a) ->
+  (wfR a -> InDomain rho a -> fwd_ok rho v a) -> fwd_ok rho v e.
+Proof.
+  intros (Hwa & Hda & Hv & k & Hm & Htp) E IH.
+  destruct (IH Hwa Hda) as (H1 & H2 & H3 & H4).
+  destruct (Hm _ H1 H3) as (M1 & M2 & M3 & M4).
+  unfold fwd_ok. rewrite E, Hv. sy_split4; try assumption.
+  - intros x Hx. apply M2 in Hx. apply in_app_or in Hx. destruct Hx as [Hx|Hx]; auto.
+  - rewrite M4. apply Htp. exact H4.
+Qed.
+
+Lemma SY_fwd_binary rho v e a b fl fr :
+  binary_spec rho e a b fl fr -> sfwd v e = Add [fl (sfwd v a); fr (sfwd v b)] ->
+  (wfR a -> InDomain rho a -> fwd_ok rho v a) ->
+  (wfR b -> InDomain rho b -> fwd_ok rho v b) -> fwd_ok rho v e.
+Proof.
+  intros (Hwa & Hwb & Hda & Hdb & Hv & ka & kb & Hl & Hr & Htp) E IHa IHb.
+  destruct (IHa Hwa Hda) as (A1 & A2 & A3 & A4).
+  destruct (IHb Hwb Hdb) as (B1 & B2 & B3 & B4).
+  destruct (Hl _ A1 A3) as (L1 & L2 & L3 & L4).
+  destruct (Hr _ B1 B3) as (R1 & R2 & R3 & R4).
+  unfold fwd_ok. rewrite E. cbn [wf InDomain denote fold_right vars flat_map].
+  sy_split4; try (repeat split; assumption).
+  - rewrite app_nil_r. apply incl_app.
+    + intros x Hx. apply L2 in Hx. apply in_app_or in Hx. destruct Hx as [Hx|Hx]; [|exact Hx].
+      rewrite Hv. apply in_or_app. left. apply A2, Hx.
+    + intros x Hx. apply R2 in Hx. apply in_app_or in Hx. destruct Hx as [Hx|Hx]; [|exact Hx].
+      rewrite Hv. apply in_or_app. right. apply B2, Hx.
+  - rewrite L4, R4. eapply tp_ext_value; [apply Htp; [exact A4 | exact B4] | ring].
+Qed.
+
+Lemma SY_tp_add_cons rho v a l da dl :
+  true_partial rho a v da -> true_partial rho (Add l) v dl ->
+  true_partial rho (Add (a :: l)) v (da + dl).
+Proof.
+  unfold true_partial; cbn [denote fold_right]; intros Ha Hl.
+  apply (Rd_plus (fun t => denote (upd rho v t) a)); assumption.
+Qed.
+
+Lemma SY_fwd_add rho v l : Forall (fwd_ok rho v) l -> fwd_ok rho v (Add l).
+Proof.
+  induction 1 as [|a l Ha Hl IH].
+  - unfold fwd_ok. cbn [synth_fwd map wf vars flat_map InDomain denote fold_right].
+    sy_split4; try exact I; [intros x [] | apply (tp_add rho v [] []); constructor].
+  - destruct Ha as (A1 & A2 & A3 & A4). destruct IH as (B1 & B2 & B3 & B4).
+    unfold fwd_ok. cbn [synth_fwd map wf InDomain vars flat_map denote fold_right] in *.
+    sy_split4.
+    + split; assumption.
+    + apply incl_app_app; assumption.
+    + split; assumption.
+    + apply SY_tp_add_cons; assumption.
+Qed.
+
+(** the expression [Mul (m :: remove_nth i l)] built by both routes for a product *)
+Lemma SY_mul_cons_ok rho V l m i :
+  Forall wfR l -> Forall (InDomain rho) l -> Forall (fun x => incl (vars x) V) l ->
+  wfR m -> InDomain rho m -> incl (vars m) V ->
+  wfR (Mul (m :: remove_nth i l)) /\ InDomain rho (Mul (m :: remove_nth i l)) /\
+  incl (vars (Mul (m :: remove_nth i l))) V /\
+  denote rho (Mul (m :: remove_nth i l)) =
+    denote rho m * fold_right Rmult 1 (remove_nth i (map (denote rho) l)).
+Proof.
+  intros Hw Hd Hv Hwm Hdm Hvm. sy_split4.
+  - apply SY_wf_Mul. constructor; [exact Hwm | apply SY_Forall_remove_nth; exact Hw].
+  - apply SY_dom_Mul. constructor; [exact Hdm | apply SY_Forall_remove_nth; exact Hd].
+  - cbn [vars]. apply SY_incl_flat_map.
+    constructor; [exact Hvm | apply SY_Forall_remove_nth; exact Hv].
+  - rewrite denote_Mul_map. cbn [map fold_right]. rewrite SY_map_remove_nth. reflexivity.
+Qed.
+
+Lemma SY_mapi_mul rho V l :
+  Forall wfR l -> Forall (InDomain rho) l -> Forall (fun x => incl (vars x) V) l ->
+  forall ds i, Forall wfR ds -> Forall (InDomain rho) ds ->
+    Forall (fun d => incl (vars d) V) ds ->
+    Forall wfR (mapi_from i (fun i d => Mul (d :: remove_nth i l)) ds) /\
+    Forall (InDomain rho) (mapi_from i (fun i d => Mul (d :: remove_nth i l)) ds) /\
+    Forall (fun x => incl (vars x) V) (mapi_from i (fun i d => Mul (d :: remove_nth i l)) ds) /\
+    map (denote rho) (mapi_from i (fun i d => Mul (d :: remove_nth i l)) ds) =
+      mapi_from i (fun i d => fold_right Rmult 1 (d :: remove_nth i (map (denote rho) l)))
+        (map (denote rho) ds).
+Proof.
+  intros Hw Hd Hv. induction ds as [|d ds IH]; intros i Hwd Hdd Hvd; cbn [mapi_from map].
+  - sy_split4; try constructor.
+  - inversion Hwd as [|? ? Hw1 Hw2]; inversion Hdd as [|? ? Hd1 Hd2];
+      inversion Hvd as [|? ? Hv1 Hv2]; subst.
+    destruct (IH (S i) Hw2 Hd2 Hv2) as (I1 & I2 & I3 & I4).
+    destruct (SY_mul_cons_ok rho V l d i Hw Hd Hv Hw1 Hd1 Hv1) as (M1 & M2 & M3 & M4).
+    sy_split4; try (constructor; assumption).
+    rewrite I4, M4. reflexivity.
+Qed.
+
+Lemma SY_incl_vars_elems (l : list (expr R)) :
+  Forall (fun x => incl (vars x) (flat_map vars l)) l.
+Proof. apply SY_incl_flat_map. apply incl_refl. Qed.
+
+Lemma SY_Forall2_map {A B} (S : A -> B -> Prop) (f : A -> B) (l : list A) :
+  Forall (fun x => S x (f x)) l -> Forall2 S l (map f l).
+Proof. induction 1; cbn [map]; constructor; assumption. Qed.
+
+Lemma SY_fwd_mul rho v l :
+  Forall wfR l -> Forall (InDomain rho) l -> Forall (fwd_ok rho v) l -> fwd_ok rho v (Mul l).
+Proof.
+  intros Hw Hd Hok.
+  pose proof (SY_incl_vars_elems l) as Hv.
+  assert (Hw' : Forall wfR (map (sfwd v) l)).
+  { apply Forall_map. eapply Forall_impl; [|exact Hok]. intros a H; apply H. }
+  assert (Hd' : Forall (InDomain rho) (map (sfwd v) l)).
+  { apply Forall_map. eapply Forall_impl; [|exact Hok]. intros a H; apply H. }
+  assert (Hv' : Forall (fun d => incl (vars d) (flat_map vars l)) (map (sfwd v) l)).
+  { apply Forall_map.
+    apply (SY_Forall_mp3 (fwd_ok rho v) (fun x => incl (vars x) (flat_map vars l)) _ l);
+      [|exact Hok|exact Hv].
+    apply Forall_forall. intros a _ (_ & H2 & _) H. eapply incl_tran; eassumption. }
+  destruct (SY_mapi_mul rho (flat_map vars l) l Hw Hd Hv (map (sfwd v) l) 0%nat Hw' Hd' Hv')
+    as (M1 & M2 & M3 & M4).
+  unfold fwd_ok. cbn [synth_fwd]. unfold mapi. sy_split4.
+  - apply SY_wf_Add. exact M1.
+  - cbn [vars]. apply SY_incl_flat_map. exact M3.
+  - apply SY_dom_Add. exact M2.
+  - rewrite denote_Add_map, M4.
+    apply (tp_mul rho v l (map (denote rho) (map (sfwd v) l))).
+    rewrite map_map. apply SY_Forall2_map.
+    eapply Forall_impl; [|exact Hok]. intros a H; apply H.
+Qed.
+
+Lemma SY_fwd_minus rho v a b :
+  fwd_ok rho v a -> fwd_ok rho v b -> fwd_ok rho v (Minus a b).
+Proof.
+  intros (A1 & A2 & A3 & A4) (B1 & B2 & B3 & B4).
+  unfold fwd_ok. cbn [synth_fwd wf vars InDomain denote]. sy_split4.
+  - split; assumption.
+  - apply incl_app_app; assumption.
+  - split; assumption.
+  - apply tp_minus; assumption.
+Qed.
+
+Lemma SY_fwd_ok rho v : forall e, wfR e -> InDomain rho e -> fwd_ok rho v e.
+Proof.
+  induction e as [c|x|l IHl|l IHl|a b IHa IHb|a b IHa IHb|a b IHa IHb
+                  |a IHa|a IHa|a IHa|a IHa|a n IHa|a n IHa|a b IHa|a b IHa] using expr_ind';
+    intros Hwf Hdom.
+  - unfold fwd_ok. cbn [synth_fwd wf vars InDomain denote].
+    sy_split4; try exact I; [apply incl_refl | apply tp_const].
+  - unfold fwd_ok. cbn [synth_fwd]. unfold name_eqb.
+    destruct (Pos.eqb x v) eqn:E; cbn [wf vars InDomain denote];
+      (sy_split4; try exact I; [intros y [] | ]).
+    + apply Pos.eqb_eq in E. subst x. apply tp_var_same.
+    + apply Pos.eqb_neq in E. apply tp_var_other. exact E.
+  - apply SY_wf_Add in Hwf. apply SY_dom_Add in Hdom.
+    apply SY_fwd_add. exact (SY_Forall_mp3 _ _ _ l IHl Hwf Hdom).
+  - apply SY_wf_Mul in Hwf. apply SY_dom_Mul in Hdom.
+    apply SY_fwd_mul; [exact Hwf | exact Hdom | exact (SY_Forall_mp3 _ _ _ l IHl Hwf Hdom)].
+  - destruct Hwf as [Hwa Hwb]. destruct Hdom as [Hda Hdb]. apply SY_fwd_minus; auto.
+  - eapply SY_fwd_binary; [apply SY_divide; assumption | reflexivity | exact IHa | exact IHb].
+  - eapply SY_fwd_binary; [apply SY_power; assumption | reflexivity | exact IHa | exact IHb].
+  - eapply SY_fwd_unary; [apply SY_neg; assumption | reflexivity | exact IHa].
+  - eapply SY_fwd_unary; [apply SY_recip; assumption | reflexivity | exact IHa].
+  - eapply SY_fwd_unary; [apply SY_sin; assumption | reflexivity | exact IHa].
+  - eapply SY_fwd_unary; [apply SY_cos; assumption | reflexivity | exact IHa].
+  - eapply SY_fwd_unary; [apply SY_nth_pow; assumption | reflexivity | exact IHa].
+  - eapply SY_fwd_unary; [apply SY_nth_root; assumption | reflexivity | exact IHa].
+  - eapply SY_fwd_unary; [apply SY_exp; assumption | reflexivity | exact IHa].
+  - eapply SY_fwd_unary; [apply SY_log; assumption | reflexivity | exact IHa].
+Qed.
+
+Theorem synth_fwd_sound : C05_synth_fwd_sound.
+Proof.
+  unfold C05_synth_fwd_sound. intros rho e v Hwf Hdom. cbv zeta.
+  exact (SY_fwd_ok rho v e Hwf Hdom).
 Qed.
